@@ -89,6 +89,10 @@ impl LiteralVisitor {
     fn add_literal(&mut self, str_literal: &Str, ident: Option<String>) {
         let value = str_literal.value.to_string();
         let span = str_literal.span;
+        if span.is_dummy() {
+            // injected by the rewriter (file prologue): it has no place in the file to report
+            return;
+        }
 
         if value.len() > self.min_literal_length && value.len() <= self.max_literal_length {
             if !self.literals.contains_key(&value) {
